@@ -32,6 +32,9 @@ def Arguments.paramNames : Arguments → List String
   | .mk posonly args vararg kwonly _ kwarg _ =>
     posonly ++ args ++ kwonly ++ vararg.toList ++ kwarg.toList
 
+/-- marks "inside a lambda / comprehension" on the list of bound names (`comp_stack` is not empty): not an identifier -/
+def compMark : String := ""
+
 def refuse (k : String) : Err := .runtimeError s!"Unable to convert node '{k}'"
 
 mutual
@@ -53,28 +56,28 @@ mutual
     | .lambda (.mk po as va ko kd kw ds) body => do
         let ds' ← transfList n bound ds
         let kd' ← transfOptList n bound kd
-        let body' ← transf n (Arguments.paramNames (.mk po as va ko kd kw ds) ++ bound) body
+        let body' ← transf n (compMark :: (Arguments.paramNames (.mk po as va ko kd kw ds) ++ bound)) body
         pure (.lambda (.mk po as va ko kd' kw ds') body')
     | .listComp elt gens => do
         let names ← compsTargetNames gens
-        let elt' ← transf n (names ++ bound) elt
-        let gens' ← transfComps n (names ++ bound) gens
+        let elt' ← transf n (compMark :: (names ++ bound)) elt
+        let gens' ← transfComps n bound (compMark :: (names ++ bound)) gens
         pure (.listComp elt' gens')
     | .setComp elt gens => do
         let names ← compsTargetNames gens
-        let elt' ← transf n (names ++ bound) elt
-        let gens' ← transfComps n (names ++ bound) gens
+        let elt' ← transf n (compMark :: (names ++ bound)) elt
+        let gens' ← transfComps n bound (compMark :: (names ++ bound)) gens
         pure (.setComp elt' gens')
     | .generatorExp elt gens => do
         let names ← compsTargetNames gens
-        let elt' ← transf n (names ++ bound) elt
-        let gens' ← transfComps n (names ++ bound) gens
+        let elt' ← transf n (compMark :: (names ++ bound)) elt
+        let gens' ← transfComps n bound (compMark :: (names ++ bound)) gens
         pure (.generatorExp elt' gens')
     | .dictComp k v gens => do
         let names ← compsTargetNames gens
-        let k' ← transf n (names ++ bound) k
-        let v' ← transf n (names ++ bound) v
-        let gens' ← transfComps n (names ++ bound) gens
+        let k' ← transf n (compMark :: (names ++ bound)) k
+        let v' ← transf n (compMark :: (names ++ bound)) v
+        let gens' ← transfComps n bound (compMark :: (names ++ bound)) gens
         pure (.dictComp k' v' gens')
     | .joinedStr vs => do pure (.joinedStr (← transfList n bound vs))
     | .formattedValue v c s => do pure (.formattedValue (← transf n bound v) c (← transfOpt n bound s))
@@ -128,13 +131,15 @@ mutual
         let v' ← transf n bound v
         pure (.mk a v' :: (← transfKeywords n bound ks))
 
-  def transfComps (n : Nsp) (bound : List String) : List Comp → Except Err (List Comp)
+  /-- the generators: the iterable of the first one is evaluated in the enclosing scope, so it is
+      transformed with the names bound there (`first`); everything else with `bound` -/
+  def transfComps (n : Nsp) (first bound : List String) : List Comp → Except Err (List Comp)
     | [] => .ok []
     | .mk t i ifs a :: gs => do
         let t' ← transfTarget n bound t
-        let i' ← transf n bound i
+        let i' ← transf n first i
         let ifs' ← transfList n bound ifs
-        pure (.mk t' i' ifs' a :: (← transfComps n bound gs))
+        pure (.mk t' i' ifs' a :: (← transfComps n bound bound gs))
 
   /-- a comprehension target: names in store position are kept -/
   def transfTarget (n : Nsp) (bound : List String) : Expr → Except Err Expr
